@@ -31,6 +31,7 @@ import (
 	"sync/atomic"
 	"time"
 
+	"github.com/pingcap/failpoint"
 	"github.com/pingcap/kvproto/pkg/coprocessor"
 	"github.com/pingcap/kvproto/pkg/kvrpcpb"
 	"github.com/pingcap/kvproto/pkg/tikvpb"
@@ -41,6 +42,8 @@ import (
 	"github.com/tikv/client-go/v2/internal/client"
 	"github.com/tikv/client-go/v2/metrics"
 	"github.com/tikv/client-go/v2/tikvrpc"
+	"github.com/tikv/client-go/v2/util"
+	"github.com/tikv/client-go/v2/util/async"
 	"go.uber.org/zap/zapcore"
 	"google.golang.org/grpc"
 	"google.golang.org/grpc/codes"
@@ -57,11 +60,15 @@ type CallerSpec struct {
 	TimeoutMs int   `json:"to"` // SendRequest time-out
 	CancelUs  int64 `json:"cu"` // cancel the context after this many microseconds; <0 never
 	StartUs   int64 `json:"su"` // start delay
+	SlowMs    int   `json:"sl"` // the server holds the response of this request for so long
+	Async     bool  `json:"as"` // use SendRequestAsync (no timer of its own: bounded by the context only)
+	Long      bool  `json:"lg"` // "no deadline": sync calls get a 30 s time-out, async calls a context without deadline;
+	// such a call must complete in the scenario's drain phase (finite watchdog)
 }
 
 type Fault struct {
 	AtUs int64  `json:"at"`
-	Kind string `json:"k"` // kill (one stream of host), killall, restart, recvfail, sendfail, initfail, close, closeaddr
+	Kind string `json:"k"` // kill (one stream of host), killall, restart, recvfail, sendfail, initfail, close, closeaddr, sendpanic
 	Host int    `json:"h"`
 	N    int    `json:"n"` // how many times (recvfail/sendfail/initfail) or down time in ms (restart)
 }
@@ -127,7 +134,13 @@ type srvStream struct {
 	once sync.Once
 	mu   sync.Mutex
 	pend []item
+	held []heldItem // slow requests: answered only after their hold time (or when the scenario drains)
 	wake chan struct{}
+}
+
+type heldItem struct {
+	it item
+	at time.Time
 }
 
 func (s *srvStream) doKill() { s.once.Do(func() { close(s.kill) }) }
@@ -222,7 +235,16 @@ func (s *server) BatchCommands(ss tikvpb.Tikv_BatchCommandsServer) error {
 			}
 			st.mu.Lock()
 			for i, id := range req.GetRequestIds() {
-				st.pend = append(st.pend, item{id, echo(req.Requests[i])})
+				it := item{id, echo(req.Requests[i])}
+				slow := 0
+				if c := reqPayload(req.Requests[i]); c >= 0 && int(c) < len(s.sc.Callers) {
+					slow = s.sc.Callers[c].SlowMs
+				}
+				if slow > 0 && !s.drain.Load() {
+					st.held = append(st.held, heldItem{it, time.Now().Add(time.Duration(slow) * time.Millisecond)})
+				} else {
+					st.pend = append(st.pend, it)
+				}
 			}
 			st.mu.Unlock()
 			select {
@@ -251,13 +273,25 @@ func (s *server) responder(ss tikvpb.Tikv_BatchCommandsServer, st *srvStream, do
 		case <-st.wake:
 		case <-time.After(2 * time.Millisecond):
 		}
+		draining := s.drain.Load()
 		st.mu.Lock()
+		if len(st.held) > 0 {
+			now := time.Now()
+			keep := st.held[:0]
+			for _, h := range st.held {
+				if draining || !now.Before(h.at) {
+					st.pend = append(st.pend, h.it)
+				} else {
+					keep = append(keep, h)
+				}
+			}
+			st.held = keep
+		}
 		n := len(st.pend)
 		st.mu.Unlock()
 		if n == 0 {
 			continue
 		}
-		draining := s.drain.Load()
 		var delay time.Duration
 		var reorder, dup, unknown bool
 		var k int
@@ -601,6 +635,18 @@ func respPay(resp *tikvrpc.Response) (int64, string) {
 
 var kindNames = []string{"rawget", "get", "empty", "cop"}
 
+var injectedPanics atomic.Int64
+
+// goExecutor runs scheduled callbacks on their own goroutine.
+type goExecutor struct{}
+
+func (goExecutor) Go(f func()) { go f() }
+func (goExecutor) Append(fs ...func()) {
+	for _, f := range fs {
+		go f()
+	}
+}
+
 func errClass(err error) string {
 	cause := errors.Cause(err)
 	msg := err.Error()
@@ -672,30 +718,53 @@ func runScenario(sc *Scenario) {
 	defer rpc.Close()
 	p0recv, p0send := counterVal(metrics.LabelBatchRecvLoop), counterVal(metrics.LabelBatchSendLoop)
 	sp0 := atomic.LoadInt64(&client.BatchSendLoopPanicCounter)
+	inj0 := injectedPanics.Load()
 
 	t0 := time.Now()
 	var wg sync.WaitGroup
 	returned := make([]atomic.Bool, len(sc.Callers))
+	cancels := make([]atomic.Value, len(sc.Callers))
+	var wgLong sync.WaitGroup
+	nLong := 0
 	maxTo := 0
 	for c := range sc.Callers {
 		cs := sc.Callers[c]
-		if cs.TimeoutMs > maxTo {
+		if cs.TimeoutMs > maxTo && !cs.Long {
 			maxTo = cs.TimeoutMs
 		}
 		wg.Add(1)
+		if cs.Long {
+			nLong++
+			wgLong.Add(1)
+		}
 		go func(c int, cs CallerSpec) {
 			defer wg.Done()
+			if cs.Long {
+				defer wgLong.Done()
+			}
 			if d := time.Duration(cs.StartUs)*time.Microsecond - time.Since(t0); d > 0 {
 				time.Sleep(d)
 			}
 			ctx, cancel := context.WithCancel(context.Background())
 			defer cancel()
+			cancels[c].Store(cancel)
+			timeout := time.Duration(cs.TimeoutMs) * time.Millisecond
+			if cs.Long {
+				timeout = 30 * time.Second
+			}
 			if cs.CancelUs >= 0 {
 				tm := time.AfterFunc(time.Duration(cs.CancelUs)*time.Microsecond, cancel)
 				defer tm.Stop()
 			}
 			req := mkReq(c, cs)
-			evs(int64(sc.ID), "SUB\t%d\t%d\t%d\t%s\t%d", c, cs.Host, cs.Pri, kindNames[cs.Kind%4], cs.TimeoutMs)
+			mode := "sync"
+			if cs.Async {
+				mode = "async"
+			}
+			if cs.Long {
+				mode += "-long"
+			}
+			evs(int64(sc.ID), "SUB\t%d\t%d\t%d\t%s\t%d\t%s", c, cs.Host, cs.Pri, kindNames[cs.Kind%4], cs.TimeoutMs, mode)
 			st := time.Now()
 			var resp *tikvrpc.Response
 			var err error
@@ -706,12 +775,38 @@ func runScenario(sc *Scenario) {
 						evs(int64(sc.ID), "PANIC\t%d\t%v", c, r)
 					}
 				}()
-				resp, err = rpc.SendRequest(ctx, srv.addr, req, time.Duration(cs.TimeoutMs)*time.Millisecond)
+				if !cs.Async {
+					resp, err = rpc.SendRequest(ctx, srv.addr, req, timeout)
+					return
+				}
+				// asynchronous API: the call is over when the callback ran; a second invocation is a second return
+				actx := ctx
+				if !cs.Long {
+					var c2 context.CancelFunc
+					actx, c2 = context.WithTimeout(ctx, timeout)
+					defer c2()
+				}
+				type res struct {
+					r *tikvrpc.Response
+					e error
+				}
+				ch := make(chan res, 4)
+				var calls atomic.Int32
+				cb := async.NewCallback(goExecutor{}, func(r *tikvrpc.Response, e error) {
+					if calls.Add(1) > 1 {
+						evs(int64(sc.ID), "RET\t%d\tfail:second-callback\t-1\t0\t0\t-", c)
+						return
+					}
+					ch <- res{r, e}
+				})
+				rpc.SendRequestAsync(actx, srv.addr, req, cb)
+				got := <-ch
+				resp, err = got.r, got.e
 			}()
 			el := time.Since(st)
 			returned[c].Store(true)
 			late := 0
-			if el > time.Duration(20*cs.TimeoutMs)*time.Millisecond+2*time.Second {
+			if !cs.Long && el > time.Duration(20*cs.TimeoutMs)*time.Millisecond+2*time.Second {
 				late = 1
 			}
 			if err != nil {
@@ -751,6 +846,14 @@ func runScenario(sc *Scenario) {
 				if err := srv.start(); err != nil {
 					ev("HARNESS\tserver restart failed: %v", err)
 				}
+			case "sendpanic":
+				// the repo's own failpoint at the top of getClientAndSend: the next n batches panic inside
+				// batchSendLoop, which recovers and restarts itself
+				injectedPanics.Add(n)
+				ev("INJ\tsendpanic\t%d", n)
+				if err := failpoint.Enable("tikvclient/mockBatchClientSendDelay", fmt.Sprintf("%d*panic(\"verif send loop panic\")", n)); err != nil {
+					ev("HARNESS\tfailpoint enable failed: %v", err)
+				}
 			case "recvfail":
 				in.recvFail[f.Host].Store(n)
 			case "sendfail":
@@ -770,6 +873,41 @@ func runScenario(sc *Scenario) {
 	}()
 	allDone := make(chan struct{})
 	go func() { wg.Wait(); close(allDone) }()
+	if nLong > 0 {
+		// calls without a (short) deadline: once the last fault is over the server is healthy and answers
+		// everything it holds, so every such call must complete (answered, or failed by the stream error) within
+		// the drain window; the ones that do not are reported and then cancelled
+		<-faultsDone
+		lastStart := time.Duration(0)
+		for _, cs := range sc.Callers {
+			if d := time.Duration(cs.StartUs) * time.Microsecond; d > lastStart {
+				lastStart = d
+			}
+		}
+		if d := lastStart + 20*time.Millisecond - time.Since(t0); d > 0 {
+			time.Sleep(d)
+		}
+		srv.drain.Store(true)
+		longDone := make(chan struct{})
+		go func() { wgLong.Wait(); close(longDone) }()
+		const drainWindow = 4 * time.Second
+		select {
+		case <-longDone:
+		case <-time.After(drainWindow):
+			for c := range returned {
+				if sc.Callers[c].Long && !returned[c].Load() {
+					ev("HANG\t%d\t%d\tno-deadline call not completed in the drain phase", c, drainWindow.Milliseconds())
+				}
+			}
+			for c := range returned {
+				if sc.Callers[c].Long && !returned[c].Load() {
+					if f, ok := cancels[c].Load().(context.CancelFunc); ok {
+						f()
+					}
+				}
+			}
+		}
+	}
 	limit := time.Duration(25*maxTo)*time.Millisecond + 5*time.Second
 	select {
 	case <-allDone:
@@ -781,6 +919,7 @@ func runScenario(sc *Scenario) {
 		}
 	}
 	<-faultsDone
+	failpoint.Disable("tikvclient/mockBatchClientSendDelay")
 	// quiescence: let the server answer what it still holds, wait until nothing moves any more
 	srv.drain.Store(true)
 	in.tabOf("0", "")
@@ -795,8 +934,8 @@ func runScenario(sc *Scenario) {
 		}
 	}
 	ev("CRES\t%s", in.canceledWithValue())
-	ev("END\t%s\t%g\t%g\t%d", snapString(in), counterVal(metrics.LabelBatchRecvLoop)-p0recv, counterVal(metrics.LabelBatchSendLoop)-p0send,
-		atomic.LoadInt64(&client.BatchSendLoopPanicCounter)-sp0)
+	ev("END\t%s\t%g\t%g\t%d\t%d", snapString(in), counterVal(metrics.LabelBatchRecvLoop)-p0recv, counterVal(metrics.LabelBatchSendLoop)-p0send,
+		atomic.LoadInt64(&client.BatchSendLoopPanicCounter)-sp0, injectedPanics.Load()-inj0)
 }
 
 func snapString(in *injector) string {
@@ -936,6 +1075,83 @@ func genScenario(r *rand.Rand, id int, class string) *Scenario {
 		a, b := r.Intn(2), 0
 		b = 1 - a
 		sc.Faults = append(sc.Faults, Fault{AtUs: 15000, Kind: "kill", Host: a}, Fault{AtUs: 30000, Kind: "kill", Host: b})
+	case "rebreak": // a stream breaks repeatedly: first with nothing pending (one loop loses the epoch CAS), later with
+		// requests pending on it -- sync calls with a normal / a 30 s time-out and async calls without deadline
+		sc.NHosts = 2 + r.Intn(2)
+		sc.DelayUs, sc.Reorder = 200, 0
+		a := r.Intn(sc.NHosts)
+		b := (a + 1 + r.Intn(sc.NHosts-1)) % sc.NHosts
+		for h := 0; h < sc.NHosts; h++ { // phase 1: create every stream, nothing stays pending
+			for k := 0; k < 1+r.Intn(2); k++ {
+				sc.Callers = append(sc.Callers, CallerSpec{Host: h, Kind: r.Intn(4), TimeoutMs: normalTo, CancelUs: -1, StartUs: r.Int63n(4000)})
+			}
+		}
+		// phase 2: both streams break with nothing pending; a's loop wins the CAS, b's loses (and refreshes)
+		sc.Faults = append(sc.Faults, Fault{AtUs: 40000, Kind: "kill", Host: a}, Fault{AtUs: 55000, Kind: "kill", Host: b})
+		target := b
+		if r.Intn(2) == 0 { // b breaks once more, still with nothing pending
+			sc.Faults = append(sc.Faults, Fault{AtUs: 70000, Kind: "kill", Host: b})
+		} else if r.Intn(4) == 0 {
+			target = a
+		}
+		// phase 3: slow requests pending on the target stream (and quick ones elsewhere), then it breaks again
+		np := 1 + r.Intn(5)
+		for k := 0; k < np; k++ {
+			cs := CallerSpec{Host: target, Kind: r.Intn(4), TimeoutMs: normalTo, CancelUs: -1, StartUs: 100000 + r.Int63n(15000), SlowMs: 400}
+			switch r.Intn(3) {
+			case 0:
+				cs.Long = true
+			case 1:
+				cs.Long, cs.Async = true, true
+			}
+			if k == 0 && !cs.Long {
+				cs.Long, cs.Async = true, r.Intn(2) == 0
+			}
+			sc.Callers = append(sc.Callers, cs)
+		}
+		for k := 0; k < r.Intn(3); k++ {
+			h := r.Intn(sc.NHosts)
+			if h == target {
+				continue
+			}
+			sc.Callers = append(sc.Callers, CallerSpec{Host: h, Kind: r.Intn(4), TimeoutMs: normalTo, CancelUs: -1, StartUs: 100000 + r.Int63n(15000), SlowMs: 20, Async: r.Intn(2) == 0})
+		}
+		sc.Faults = append(sc.Faults, Fault{AtUs: 140000, Kind: "kill", Host: target})
+		if r.Intn(3) == 0 { // and once more, with new requests pending
+			for k := 0; k < 1+r.Intn(2); k++ {
+				sc.Callers = append(sc.Callers, CallerSpec{Host: target, Kind: r.Intn(4), TimeoutMs: normalTo, CancelUs: -1, StartUs: 170000 + r.Int63n(5000), SlowMs: 400, Long: true, Async: r.Intn(2) == 0})
+			}
+			sc.Faults = append(sc.Faults, Fault{AtUs: 200000, Kind: "kill", Host: target})
+		}
+	case "staleasync": // NOT in the default tiers (VERIF_C18_STALEASYNC=1): the documented stale-epoch re-creation with a
+		// no-deadline call pending on the stream whose loop loses the epoch CAS -- that call never completes
+		sc.NHosts = 2
+		sc.DelayUs, sc.Reorder = 200, 0
+		a := r.Intn(2)
+		for i := 0; i < 2+r.Intn(3); i++ {
+			sc.Callers = append(sc.Callers, CallerSpec{Host: 1 - a, Kind: r.Intn(4), TimeoutMs: normalTo, CancelUs: -1, StartUs: r.Int63n(3000), SlowMs: 400, Long: true, Async: i%2 == 0})
+		}
+		sc.Callers = append(sc.Callers, CallerSpec{Host: a, Kind: r.Intn(4), TimeoutMs: normalTo, CancelUs: -1, StartUs: r.Int63n(3000), SlowMs: 400})
+		sc.Faults = append(sc.Faults, Fault{AtUs: 15000, Kind: "kill", Host: a}, Fault{AtUs: 30000, Kind: "kill", Host: 1 - a})
+	case "sendpanic": // the send loop panics and restarts while slow requests with small ids are in flight; later
+		// requests stay in flight long enough to meet the responses of the earlier ones
+		sc.NHosts = 1 + r.Intn(2)
+		sc.DelayUs, sc.Reorder = 200, 0
+		k := 1 + r.Intn(4)
+		for i := 0; i < k; i++ {
+			sc.Callers = append(sc.Callers, CallerSpec{Host: r.Intn(sc.NHosts), Kind: r.Intn(4), TimeoutMs: normalTo, CancelUs: -1, StartUs: r.Int63n(3000), SlowMs: 60 + r.Intn(30)})
+		}
+		sc.Faults = append(sc.Faults, Fault{AtUs: 10000, Kind: "sendpanic", N: 1})
+		m := k + 2 + r.Intn(4)
+		for i := 0; i < m; i++ {
+			sc.Callers = append(sc.Callers, CallerSpec{Host: r.Intn(sc.NHosts), Kind: r.Intn(4), TimeoutMs: normalTo, CancelUs: -1, StartUs: 15000 + r.Int63n(20000), SlowMs: 120 + r.Intn(40), Async: r.Intn(3) == 0})
+		}
+		if r.Intn(3) == 0 { // a second panic later
+			sc.Faults = append(sc.Faults, Fault{AtUs: 45000, Kind: "sendpanic", N: 1})
+		}
+		for i := 0; i < 3; i++ { // late quick requests: they also push out whatever a panicking round left in the builder
+			sc.Callers = append(sc.Callers, CallerSpec{Host: r.Intn(sc.NHosts), Kind: r.Intn(4), TimeoutMs: normalTo, CancelUs: -1, StartUs: 50000 + int64(i)*6000})
+		}
 	case "multiconn": // several connections share the id source (black-box oracles only)
 		sc.Conns = uint(2 + r.Intn(3))
 		sc.NHosts = 1 + r.Intn(3)
@@ -953,6 +1169,7 @@ func genScenario(r *rand.Rand, id int, class string) *Scenario {
 func main() {
 	out = bufio.NewWriterSize(os.Stdout, 1<<20)
 	defer func() { outMu.Lock(); out.Flush(); outMu.Unlock() }()
+	util.EnableFailpoints()
 	if os.Getenv("VERIF_LOG") == "" {
 		log.SetLevel(zapcore.FatalLevel)
 	}
@@ -982,13 +1199,16 @@ func main() {
 	}
 	tier := os.Getenv("VERIF_TIER")
 	r := rand.New(rand.NewSource(seed*7919 + 17))
-	classes := []string{"plain", "forward", "streamfail", "cancel", "close", "staleepoch", "multiconn"}
-	rounds := 10
+	classes := []string{"plain", "forward", "streamfail", "cancel", "close", "staleepoch", "multiconn", "rebreak", "sendpanic"}
+	rounds := 7
 	if tier == "thorough" {
 		rounds = 150
 	}
 	if v, _ := strconv.Atoi(os.Getenv("VERIF_ROUNDS")); v > 0 {
 		rounds = v
+	}
+	if os.Getenv("VERIF_C18_STALEASYNC") == "1" {
+		classes = append(classes, "staleasync")
 	}
 	only := os.Getenv("VERIF_CLASS")
 	id := 0
